@@ -163,7 +163,13 @@ fn enumerate(out: &mut Out, thorough: bool) {
                 }
                 for (j, s) in ss.iter().enumerate() {
                     let k = i * 8 + j;
-                    out.rec(concat!($tn, "::scalar_ops"), k, 'I', 0.0, 0.0, &[(va * *s).to_array(), (va + *s).to_array(), (*s - va).to_array(), (va / *s).to_array(), (va % *s).to_array()].concat());
+                    out.rec(concat!($tn, "::scalar_ops"), k, 'I', 0.0, 0.0, &[(va * *s).to_array(), (va + *s).to_array(), (*s - va).to_array(), (va / *s).to_array(), (va % *s).to_array(), (*s * va).to_array(), (*s / va).to_array(), (*s + va).to_array(), (*s % va).to_array()].concat());
+                    let (mut t1, mut t2, mut t3, mut t4, mut t5) = (va, va, va, va, va);
+                    t1 *= *s; t2 /= *s; t3 += *s; t4 -= *s; t5 %= *s;
+                    let (mut u1, mut u2, mut u3, mut u4, mut u5) = (va, va, va, va, va);
+                    let vb = mk(&vs[(i + j) % nv]);
+                    u1 *= vb; u2 /= vb; u3 += vb; u4 -= vb; u5 %= vb;
+                    out.rec(concat!($tn, "::assign_forms"), k, 'I', 0.0, 0.0, &[t1.to_array(), t2.to_array(), t3.to_array(), t4.to_array(), t5.to_array(), u1.to_array(), u2.to_array(), u3.to_array(), u4.to_array(), u5.to_array()].concat());
                 }
             }
         }};
@@ -214,7 +220,10 @@ fn enumerate(out: &mut Out, thorough: bool) {
             let pa = p.to_array();
             let s = l1(&qa) * linf(&pa);
             out.rec("Quat::mul", k, 'T', 8.0 * E * s, 0.0, &(*q * *p).to_array());
-            out.rec("Quat::add_sub", k, 'I', 0.0, 0.0, &[(*q + *p).to_array(), (*q - *p).to_array(), (*q * 0.5).to_array()].concat());
+            out.rec("Quat::add_sub", k, 'I', 0.0, 0.0, &[(*q + *p).to_array(), (*q - *p).to_array(), (*q * 0.5).to_array(), (*q * 0.3).to_array(), (*q / 3.0).to_array(), (*q / -0.7).to_array()].concat());
+            let mut qm = *q;
+            qm *= *p;
+            out.rec("Quat::mul_assign_minus_mul", k, 'I', 0.0, 0.0, &(qm - *q * *p).to_array());
             out.rec("Quat::dot", k, 'T', 8.0 * E * sabs(&qa, &pa), 0.0, &[q.dot(*p)]);
             let (uq, up) = (q.normalize(), p.normalize());
             // interpolation: SIMD slerp uses its own sine approximation (accuracy 1e-6 class)
@@ -261,6 +270,17 @@ fn enumerate(out: &mut Out, thorough: bool) {
                     out.rec(concat!($tn, "::add_sub"), k, 'I', 0.0, 0.0, &[(*m + *b).to_cols_array(), (*m - *b).to_cols_array()].concat());
                     out.rec(concat!($tn, "::eq"), k, 'I', 0.0, 0.0, &[(*m == *b) as u32 as f32]);
                 }
+                // element-wise scalar forms, operator and assign forms: no re-association slack at all
+                for (j, sc) in [3.0f32, 0.1, -7.0, 1.0 / 3.0, 49.0].iter().enumerate() {
+                    let k = i * 5 + j;
+                    let (mut t1, mut t2, mut t3, mut t4) = (*m, *m, *m, *m);
+                    t1 *= *sc; t2 /= *sc; t3 += ms[(i + j) % ms.len()]; t4 -= ms[(i + j) % ms.len()];
+                    let mut t5 = *m;
+                    t5 *= ms[(i + j) % ms.len()];
+                    out.rec(concat!($tn, "::scalar_forms"), k, 'I', 0.0, 0.0, &[(*m * *sc).to_cols_array(), (*sc * *m).to_cols_array(), (*m / *sc).to_cols_array(), m.mul_scalar(*sc).to_cols_array(), m.div_scalar(*sc).to_cols_array(), t1.to_cols_array(), t2.to_cols_array(), t3.to_cols_array(), t4.to_cols_array()].concat());
+                    // `*=` is the same product as `*` in the same build
+                    out.rec(concat!($tn, "::mul_assign_minus_mul"), k, 'I', 0.0, 0.0, &(t5 - *m * ms[(i + j) % ms.len()]).to_cols_array());
+                }
                 for (j, a) in vs.iter().enumerate() {
                     let k = i * nv + j;
                     let s = linf(&ca) * l1(&a[..$N]);
@@ -287,6 +307,11 @@ fn enumerate(out: &mut Out, thorough: bool) {
             let b2 = Affine2::from_mat3(Mat3::from_cols(b.x_axis.truncate().truncate().extend(0.0), b.y_axis.truncate().truncate().extend(0.0), b.w_axis.truncate().truncate().extend(1.0)));
             let s2 = (linf(&c2) * l1(&b2.to_cols_array())).max(linf(&c2));
             out.rec("Affine2::mul", k, 'T', 8.0 * E * s2, 0.0, &(a2 * b2).to_cols_array());
+            let (mut t3, mut t2) = (a3, a2);
+            t3 *= b3; t2 *= b2;
+            let d3: Vec<f32> = t3.to_cols_array().iter().zip((a3 * b3).to_cols_array()).map(|(x, y)| x - y).collect();
+            let d2: Vec<f32> = t2.to_cols_array().iter().zip((a2 * b2).to_cols_array()).map(|(x, y)| x - y).collect();
+            out.rec("Affine3A,Affine2::mul_assign_minus_mul", k, 'I', 0.0, 0.0, &[d3, d2].concat());
         }
         for (j, a) in vs.iter().enumerate() {
             let k = i * nv + j;
